@@ -1,6 +1,6 @@
 (* Statements of Props/C12.v assembled from the lemmas of Ckpt/*.v *)
 From Verif Require Import Lib.Base Mkvs.Trie Mkvs.TrieProofs Mkvs.HashProofs
-  Ckpt.Model Ckpt.Proofs Ckpt.ParProofs Ckpt.RestoreProofs Ckpt.Examples Ckpt.Stack Ckpt.StackSim Gen.CkptConsts.
+  Ckpt.Model Ckpt.Proofs Ckpt.ParProofs Ckpt.RestoreProofs Ckpt.Examples Ckpt.Stack Ckpt.StackSim Ckpt.Frame Gen.CkptConsts.
 
 Lemma chunks_cover_l : forall H size threads t, wf t ->
   (forall c, In c (chunks H size threads t) -> incl (pleaves c) (contents t)) /\
@@ -81,3 +81,53 @@ Proof.
   intros H t W size n Hn. destruct (par_stack_refines_count_l H t W size (S n) Hn) as (res & E & _ & Ec).
   exists res. split; [exact E|]. rewrite Ec. reflexivity.
 Qed.
+
+(* create with the ported stack machine, restore: exactly the contents *)
+Lemma stack_create_restore_exact_l : forall H t size n, wf t ->
+  exists res, s_par H size (S n) t = Some (res, []) /\
+    (forall c, In c (map fst res) -> phash H c = root_hash H t /\ incl (pleaves c) (contents t)) /\
+    (forall e, In e (contents t) -> exists c, In c (map fst res) /\ In e (pleaves c)) /\
+    NoDup (concat (map snd res)) /\ Forall sorted (map snd res) /\
+    incl (concat (map snd res)) (contents t) /\
+    (forall l, (forall c, In c l -> In c (map fst res)) -> (forall c, In c (map fst res) -> In c l) ->
+               fold_left (fun s c => import c s) l [] = contents t).
+Proof.
+  intros H t size n W. destruct (stack_port_chunks_all H t size n W) as (res & E & Ec & Er).
+  exists res. split; [exact E|]. rewrite Ec, Er.
+  destruct (par_runs_disjoint_l size (S n) t W) as [Hnd Hincl].
+  split; [|split; [|split; [exact Hnd|split; [apply par_runs_sorted_l; exact W|split; [exact Hincl|]]]]].
+  - intros c Hc. split; [eapply chunks_hash; eauto|eapply chunks_sound; eauto].
+  - intros e He. apply chunks_cover_all; assumption.
+  - intros l Hs Ha. eapply restore_any_order_l; eauto.
+Qed.
+
+(* done, then Finalize with the checkpoint's root: exactly the checkpointed contents *)
+Lemma finalize_after_done_exact_l : forall H Hd decode enc,
+  (forall c, decode (enc c) = Some c) ->
+  forall size threads t, wf t -> forall evs,
+  let cs := chunks H size threads t in
+  let digests := map (fun c => Hd (enc c)) cs in
+  let s := rrun H Hd decode (root_hash H t) digests (mkr false [] []) evs in
+  forall i b s', rstep H Hd decode (root_hash H t) digests s (EChunk i b) = (s', ROk) ->
+                 active s' = false ->
+                 rfinalize (root_hash H t) (root_hash H t) s' = Some (contents t) \/ collision Hd.
+Proof.
+  intros H Hd decode enc De size threads t W evs cs digests s i b s' Hstep Hdone.
+  destruct (restore_history_exact_l H Hd decode enc De size threads t W evs) as [[_ Hx]|Cn]; [|now right].
+  destruct (Hx i b s' Hstep Hdone) as [E|Cn]; [|now right].
+  left. unfold rfinalize. rewrite (proj2 (bytes_eqb_eq _ _) eq_refl). now rewrite E.
+Qed.
+
+Lemma par_runs_disjoint_sorted_l : forall size threads t, wf t ->
+  NoDup (concat (fst (par_runs size threads t))) /\
+  incl (concat (fst (par_runs size threads t))) (contents t) /\
+  Forall sorted (fst (par_runs size threads t)).
+Proof.
+  intros size threads t W. destruct (par_runs_disjoint_l size threads t W) as [A B].
+  repeat split; auto. now apply par_runs_sorted_l.
+Qed.
+
+Lemma entry_sizes_are_costs_l : forall lbl lf k v,
+  N.of_nat (length (1 :: leaf_bin k v)) = leaf_cost k v /\
+  N.of_nat (length (1 :: node_bin lbl lf)) = node_cost lbl lf.
+Proof. intros. split; [apply leaf_entry_cost|apply node_entry_cost]. Qed.
